@@ -2,8 +2,9 @@
 
 REAL `GemHostHandler` / `GemEquipmentHandler` over a real `HsmsProtocol` on an in-memory connection (tools/harness/gemrig.py);
 T3 and the establish-communications delay are fired by the harness (fake `threading.Timer` in the module namespace).
-Each history is a list of letters of the 9-letter alphabet
+Each history is a list of letters of the alphabet
     en dis sel lost t3 dly  rx S1F13  rx S1F14{matching|old|foreign system bytes} x COMMACK{0,1,63,undecodable}  rx other
+    con (the transport connection comes up without a Select: connected but not selected)  cfg (the configured delay changes)
 After each letter: bounded wait for quiescence, then the communication state, the timers, the frames written, the callbacks
 invoked, the `handler_communicating` events and the `WrongSourceStateError`s raised are recorded.
   (C) the same history goes to the Lean model (`gemcomm run …`) and the per-step records are compared;
@@ -23,6 +24,7 @@ import hlib  # noqa: E402
 import secsgem.secs  # noqa: E402
 
 EN, DIS, SEL, LOST, T3, DLY = ("en",), ("dis",), ("sel",), ("lost",), ("t3",), ("dly",)
+CON = ("con",)  # the transport connection comes up, no Select.req yet (connected but not selected)
 CFG = ("cfg",)  # the application changes the configured establish-communications delay (public settings setter)
 RX13 = ("rx", 1, 13, 1, "in", None)
 RX13Z = ("rx", 1, 13, 1, "zero", None)  # system bytes 0x00000000
@@ -88,6 +90,7 @@ class Run:
         rig = self.rig
         before = rig.comm()
         link_before = rig.link
+        conn_before = rig.connected
         t3_b, dl_b = self.timers()
         mark = len(rig.log)
         token = lt[0]
@@ -111,6 +114,8 @@ class Run:
                 raise
             except Exception as exc:  # noqa: BLE001
                 info["raised"] = type(exc).__name__
+        elif lt == CON:
+            rig.connect()
         elif lt == SEL:
             rig.select()
         elif lt == LOST:
@@ -127,7 +132,7 @@ class Run:
             real, abst = self.resolve_sys(kind)
             token = f"rx:{s}:{f}:{w}:{abst}:{'-' if c is None else c}"
             info["sys"] = abst
-            if rig.link:
+            if rig.connected:  # not selected: the protocol layer answers Reject.req, the handler sees nothing
                 body = s1f14_body(c) if (s, f) == (1, 14) else b""
                 rig.feed(rig.data_message(s, f, bool(w), real, body))
         # ---- observe
@@ -166,11 +171,12 @@ class Run:
         # what the application is told: waitfor_communicating() without waiting
         wfc = bool(rig.h.waitfor_communicating(0))
         st = {"letter": lt, "wfc": wfc, "before": before, "after": rig.comm(), "link_before": link_before, "link_after": rig.link,
+              "conn_before": conn_before, "conn_after": rig.connected,
               "t3_before": t3_b, "dly_before": dl_b, "t3_after": t3_a, "dly_after": dl_a, "outs": outs,
               "queued": rig.p._send_queue.qsize(), "info": info}
-        selected = rig.p.connection_state.current.name == "CONNECTED_SELECTED"
-        if selected != rig.link:
-            info["link_mismatch"] = rig.p.connection_state.current.name
+        cs = rig.p.connection_state.current.name
+        if (cs == "CONNECTED_SELECTED") != rig.link or (cs != "NOT_CONNECTED") != rig.connected:
+            info["link_mismatch"] = cs
         self.tokens.append(token)
         self.steps.append(st)
         return st
@@ -194,7 +200,7 @@ def show_out(o):
 
 
 def show_step(st):
-    return (f"{st['after']}/{int(st['link_after'])}{int(st['t3_after'])}{int(st['dly_after'])}{int(st['wfc'])}/{st['queued']}:"
+    return (f"{st['after']}/{int(st['conn_after'])}{int(st['link_after'])}{int(st['t3_after'])}{int(st['dly_after'])}{int(st['wfc'])}/{st['queued']}:"
             + "+".join(show_out(o) for o in st["outs"]))
 
 
@@ -208,11 +214,11 @@ def oracle(steps):
         lt, before, after, outs = st["letter"], st["before"], st["after"], st["outs"]
         ids = [o[1] for o in outs if o[0] == "13"]
         on_link_before = set(on_link)
-        if lt == SEL and not st["link_before"]:
-            on_link = set(ids)
-        elif lt == LOST and st["link_before"]:
+        if lt in (SEL, CON) and not st["conn_before"]:
+            on_link = set(ids)       # a new connection: what it writes first (the send queue) is written on it
+        elif lt == LOST and st["conn_before"]:
             on_link = set()
-        elif st["link_after"]:
+        elif st["conn_after"]:
             on_link |= set(ids)
         entered = after == "COMMUNICATING" and before != "COMMUNICATING"
         # clause 1: established only after a completed S1F13/S1F14 exchange with COMMACK 0 on the current link
@@ -239,7 +245,7 @@ def oracle(steps):
         if after == "COMMUNICATING" and not st["link_after"]:
             bad.append(("established-after-loss", "COMMUNICATING while the link is down", i))
         # clause 3: loss of the link / disabling leaves the established state
-        if (lt == DIS or (lt == LOST and st["link_before"])) and after == "COMMUNICATING":
+        if (lt == DIS or (lt == LOST and st["conn_before"])) and after == "COMMUNICATING":
             bad.append(("established-after-loss", f"still COMMUNICATING after {lt[0]}", i))
         # clause 2: an unanswered / refused attempt is retried after the delay, as long as the link stays up
         if st["link_after"]:
@@ -257,6 +263,9 @@ def oracle(steps):
                             f"S1F14 COMMACK={lt[5]} (refusal) in WAIT_CRA did not start the establish-communications delay", i))
             if lt == DLY and before == "WAIT_DELAY" and st["dly_before"] and not (after == "WAIT_CRA" and ids and st["t3_after"]):
                 bad.append(("no-retry", "delay expiry in WAIT_DELAY did not send S1F13 again", i))
+        elif st["conn_before"] and st["conn_after"] and lt == DLY and before == "WAIT_DELAY" and st["dly_before"] \
+                and not (after == "WAIT_CRA" and ids and st["t3_after"]):
+            bad.append(("no-retry", "delay expiry in WAIT_DELAY on a connected (not yet selected) link did not write S1F13 again", i))
         # what the application is told (waitfor_communicating) is the established state, nothing else
         if st["wfc"] != (after == "COMMUNICATING"):
             bad.append(("reported-established-wrongly", f"waitfor_communicating(0) returns {st['wfc']} in {after}", i))
@@ -305,6 +314,8 @@ def detect_flags():
 
 BASES = [[], [EN], [EN, SEL], [EN, SEL, T3], [EN, SEL, rx14("match", 0)], [EN, SEL, LOST], [EN, SEL, T3, LOST], [EN, SEL, RX13],
          [EN, SEL, LOST, T3, DLY]]
+# connected but not selected: in NOT_COMMUNICATING, in WAIT_DELAY, in WAIT_CRA with an S1F13 in the send queue
+CON_BASES = [[EN, CON], [EN, SEL, T3, LOST, CON], [EN, SEL, T3, LOST, DLY, CON], [EN, SEL, rx14("match", 0), LOST, CON], [CON, EN]]
 
 
 def variants(rng, cls):
@@ -316,6 +327,7 @@ def variants(rng, cls):
 
 
 CLASSES = [EN, DIS, SEL, LOST, T3, DLY, RX13, "rx14", "other"]
+CLASSES_CON = CLASSES + [CON]
 
 
 def product(n, k):
@@ -350,8 +362,17 @@ def gen_histories(rng, tier, search):
                 continue  # quick: the long words start from the prefixes that differ most (all of them in thorough)
             for idx in product(len(CLASSES), depth):
                 out.append((role, 0, base + [variants(rng, CLASSES[i]) for i in idx], f"exh-{depth}"))
+    # connected but not selected: all words of length <= 2 over the wide alphabet + `con`, and of length 3 over the 10 letters
+    for role in ("equipment", "host"):
+        for bi, base in enumerate(CON_BASES):
+            for k in (1, 2):
+                for idx in product(len(wide) + 1, k):
+                    out.append((role, 0, base + [(wide + [CON])[i] for i in idx], "exh-con"))
+            if big or (role == "equipment" and bi in (1, 2)):
+                for idx in product(len(CLASSES_CON), 3):
+                    out.append((role, 0, base + [variants(rng, CLASSES_CON[i]) for i in idx], "exh-con-3"))
     n_rand = 3000 if big else 500
-    weights = [EN] * 2 + [DIS] + [SEL] * 3 + [LOST] * 2 + [T3] * 3 + [DLY] * 3 + [RX13] * 2 + ["rx14"] * 5 + ["other"] * 3 + [CFG] * 2 + [RX13Z]
+    weights = [CON] * 3 + [EN] * 2 + [DIS] + [SEL] * 3 + [LOST] * 2 + [T3] * 3 + [DLY] * 3 + [RX13] * 2 + ["rx14"] * 5 + ["other"] * 3 + [CFG] * 2 + [RX13Z]
     # the configured delay changes, then an attempt fails; an S1F13 with system bytes 0: all words of length <= 2 from three prefixes
     for role in ("equipment", "host"):
         for base in ([EN, SEL], [CFG, EN, SEL, T3, DLY], [EN, SEL, rx14("match", 0), CFG, LOST]):
@@ -487,7 +508,9 @@ def main():
                 "S99F1, S1F3, S1F0)} for host and equipment: from base prefixes (one per reachable communication state / link situation) "
                 "all words of length <= 2 over a 14-letter alphabet that spells the key S1F14 variants out, all words of length 3 "
                 "(quick) / 4 (thorough) over the 9-letter alphabet, seeded random histories of length 4..30, and short words with a subclass "
-                "whose on_commack_requested() refuses.  distinct = distinct (role, refusal code, letter sequence); non-trivial = the history "
+                "whose on_commack_requested() refuses; phases in which the link is connected but not selected (letter con: 5 prefixes, all words of "
+                "length <= 2 over 15 letters, length 3 over 10 letters), a letter that changes the configured delay, S1F13 with system bytes 0; "
+                "after every letter also waitfor_communicating(0) and every fake timer ever armed are looked at.  distinct = distinct (role, refusal code, letter sequence); non-trivial = the history "
                 "leaves DISABLED")
     flags = detect_flags()
     res.notes.append(f"variant detected on the implementation: sysChecked={flags[0]} commackGate={flags[1]}")
